@@ -46,6 +46,7 @@ def run(prog):
         raise CheckerError("LT: label-indexed tables confirmed by hand are no longer discovered: %s" % sorted(missing))
     uses = {k: [] for k in tabs}
     bad = {k: [] for k in tabs}
+    shrinks = {}
     for f in fns:
         for cs in f.terms.calls:
             k = fieldkey(cs.args[0]) if cs.args else None
@@ -53,9 +54,25 @@ def run(prog):
                 uses[k].append(cs.callee.name)
                 if cs.callee.name in SHIFTING and ("Vec" in cs.callee.key() or "slice" in cs.callee.key()):
                     bad[k].append((f, cs))
+                if cs.callee.name in ("resize", "resize_with") and "Vec" in cs.callee.key() and len(cs.args) >= 2:
+                    # growing a label table is fine, shrinking it drops the entries of the larger labels: the new length is
+                    # max(len, ..) or the call is under a comparison with the table's own length
+                    nl = strip(cs.args[1])
+                    tab = show(strip(cs.args[0]))
+                    grows = mir.is_call(nl, "max") and any("len(" in show(a) for a in nl[2])
+                    guarded = any("len(" in show(c) and strip(c)[0] == "bin" for c, _v, _a, _b in f.terms.facts_at(cs.bb))
+                    if not grows and not guarded:
+                        shrinks.setdefault(k, []).append((f, cs))
     out = []
     for k in sorted(tabs):
         adt, fld = k
+        if k in shrinks and not bad[k]:
+            f, cs = shrinks[k][0]
+            out.append(inst("LT", "%s.%s:indexing-kept" % (adt, fld), VIOLATION, f, cs.line,
+                            "%s (line %d) resizes %s, a table indexed by variable label, to %s without comparing with its current "
+                            "length: when the table is already longer the call truncates it and the entries of the larger labels "
+                            "are lost" % (f.name, cs.line, fld, show(cs.args[1])[:40])))
+            continue
         if bad[k]:
             f, cs = bad[k][0]
             out.append(inst("LT", "%s.%s:indexing-kept" % (adt, fld), VIOLATION, f, cs.line,
